@@ -76,7 +76,7 @@ func (b *Bin) UnmarshalBinary(d []byte) error {
 
 // Op is a workload operation.
 type Op struct {
-	K  string `json:"k"` // init create update delete
+	K  string `json:"k"` // init create update delete upd2
 	ID string `json:"id,omitempty"`
 	A  string `json:"a,omitempty"`
 	N  int    `json:"n,omitempty"`
@@ -173,7 +173,13 @@ func openEnv(dir string, w Workload) (*env, error) {
 	}
 	qs := badgerstore.NewQueryStore(st, func(qs *badgerstore.QueryStore, q url.Values) (*badgerstore.IndexQuery, error) {
 		p, _ := hex.DecodeString(q.Get("prefix"))
-		return &badgerstore.IndexQuery{Index: qs.Index(q.Get("index")), KeyPrefix: p, Limit: -1, Reverse: q.Get("reverse") == "true"}, nil
+		iq := &badgerstore.IndexQuery{Index: qs.Index(q.Get("index")), KeyPrefix: p, Limit: -1, Reverse: q.Get("reverse") == "true"}
+		if q.Get("window") == "1" {
+			// every second key length filtered out, one entry skipped, at most two returned
+			iq.FilterKeys = func(k []byte) bool { return len(k)%2 == 1 }
+			iq.Offset, iq.Limit = 1, 2
+		}
+		return iq, nil
 	})
 	for _, name := range w.Indexes {
 		name := name
@@ -199,6 +205,16 @@ func (e *env) apply(w Workload, op Op) error {
 		return tx.Create(value(w.Kind, op.A, op.N))
 	case "update":
 		return tx.Update(value(w.Kind, op.A, op.N))
+	case "upd2":
+		// two updates in one write transaction: to another value and back to what it was
+		cur, err := tx.Value()
+		if err != nil {
+			return err
+		}
+		if err := tx.Update(value(w.Kind, op.A, op.N)); err != nil {
+			return err
+		}
+		return tx.Update(cur)
 	default:
 		return tx.Delete()
 	}
@@ -482,6 +498,12 @@ func step(w Workload, s state, op Op) (state, bool) {
 		}
 		n.vals[op.ID] = op.A + "|" + strconv.Itoa(op.N)
 		return n, true
+	case "upd2":
+		// acknowledged: the value is what it was
+		if _, ok := n.vals[op.ID]; !ok {
+			return s, false
+		}
+		return n, true
 	default:
 		if _, ok := n.vals[op.ID]; !ok {
 			return s, false
@@ -527,6 +549,12 @@ func advance(w Workload, states []state, ops []Op, r *childResult) ([]state, str
 				next = append(next, s)
 				if n, ok := step(w, s, op); ok {
 					next = append(next, n)
+					if op.K == "upd2" {
+						// killed between its two updates: the intermediate value
+						mid := s.clone()
+						mid.vals[op.ID] = op.A + "|" + strconv.Itoa(op.N)
+						next = append(next, mid)
+					}
 				}
 			}
 			return dedupe(next), ""
@@ -645,6 +673,42 @@ func checkIndexes(e *env, w Workload, obs state) string {
 				if fmt.Sprint(got) != fmt.Sprint(want) {
 					return fmt.Sprintf("index %s prefix %q reverse=%v returns %q, the stored values give %q", idx, p, rev, got, want)
 				}
+				// the same query through a key filter, an offset and a limit
+				var wwant []string
+				skip := 1
+				for _, x := range func() []ent {
+					var m []ent
+					for _, x := range es {
+						if strings.HasPrefix(x.key, p) {
+							m = append(m, x)
+						}
+					}
+					if rev {
+						for i, j := 0, len(m)-1; i < j; i, j = i+1, j-1 {
+							m[i], m[j] = m[j], m[i]
+						}
+					}
+					return m
+				}() {
+					if len(x.key)%2 != 1 {
+						continue
+					}
+					if skip > 0 {
+						skip--
+						continue
+					}
+					if len(wwant) < 2 {
+						wwant = append(wwant, x.id)
+					}
+				}
+				res, err = e.qs.Query(url.Values{"index": {idx}, "prefix": {hex.EncodeToString([]byte(p))}, "reverse": {strconv.FormatBool(rev)}, "window": {"1"}})
+				if err != nil {
+					return fmt.Sprintf("index query %s prefix %q (filter, offset 1, limit 2) failed: %v", idx, p, err)
+				}
+				got, _ = res.([]string)
+				if fmt.Sprint(got) != fmt.Sprint(wwant) {
+					return fmt.Sprintf("index %s prefix %q reverse=%v with an odd-length key filter, offset 1, limit 2 returns %q, the stored values give %q", idx, p, rev, got, wwant)
+				}
 			}
 		}
 	}
@@ -759,7 +823,7 @@ func genWorkload() *rapid.Generator[Workload] {
 			}
 			n := rapid.IntRange(1, 8).Draw(t, "nops")
 			for i := 0; i < n; i++ {
-				k := rapid.SampledFrom([]string{"create", "create", "update", "update", "delete", "init"}).Draw(t, "k")
+				k := rapid.SampledFrom([]string{"create", "create", "update", "update", "delete", "init", "upd2"}).Draw(t, "k")
 				op := Op{K: k}
 				if k != "init" {
 					op.ID = rapid.SampledFrom(ids).Draw(t, "id")
